@@ -7,7 +7,7 @@ from hypothesis import strategies as st
 
 from .. import gen, model
 from ..core import SKIP, Enum, Sub
-from ..util import arr, compare, flags, tarr
+from ..util import carr, arr, compare, flags, tarr
 
 ID = "C11"
 RULE = ("regular axes with step D in {1,2,7,60,900,3600}; n=0..30; series of plateau/step/noise segments over a 3-5 letter "
@@ -122,7 +122,7 @@ def check_flat(case, rec):
     if not (case.get("tol_default") and tol == 0):
         kw["tolerance"] = tol
     site = "qartod.flat_line_test"
-    got = flags(rec, site, rec.call(site, _fl(), arr(x), case_times(case), **kw), n, length=n)
+    got = flags(rec, site, rec.call(site, _fl(), carr(case, x), case_times(case), **kw), n, length=n)
     if got is SKIP:
         return
     compare(rec, site, got, allowed, length=n)
@@ -148,7 +148,7 @@ def enum_cases(chunk):
                     yield {"x": x, "t0": 0, "D": D, "suspect": s, "fail": f, "tol": tol, "tc": "dt64"}
 
 
-SUBS = [Sub("flat_line", flat_case, check_flat, quick=5000, thorough=100000)]
+SUBS = [Sub("flat_line", lambda tier: gen.with_carrier(flat_case(tier)), check_flat, quick=5000, thorough=100000)]
 ENUMS = [Enum("flat_alphabet", enum_chunks, enum_cases, check_flat,
               describe="all series of length 1..7 (quick: 1..4) over {0,0.5,1,missing} x D in {1,60} x durations "
                        "{0,D,2D,3D(+1),nD}^2 x tolerances {0,0.5,1,1.5}", tiers=("quick", "thorough"))]
